@@ -9,7 +9,7 @@ open Amqp.Gen.Cancel
 /-! ## the facts the models rest on, as the source has them now -/
 
 theorem source_send_is_atomic : atomicPath = true := by decide
-theorem source_recv_parks : recvParks = true := by decide
+theorem source_recv_parks : recvParks = true := by decide +kernel
 theorem source_topup_reset_last : topupResetLast = true := by decide
 
 /-! ## frames -/
@@ -704,6 +704,6 @@ theorem unparked_recv_loses :
 
 example :
     let s := rrun recvParks (rinit true 1) [.outFill 1, .arrive ⟨0, 0, 1⟩, .poll, .cancel, .outDrain 1, .arrive ⟨1, 0, 1⟩, .poll, .outDrain 1, .poll]
-    s.returned = [[⟨0, 0, 1⟩], [⟨1, 0, 1⟩]] ∧ s.lost = [] := by decide
+    s.returned = [[⟨0, 0, 1⟩], [⟨1, 0, 1⟩]] ∧ s.lost = [] := by decide +kernel
 
 end Amqp.Cancel
